@@ -126,7 +126,8 @@ func runTx(ctx *action.Context, tx action.RawTx) (bool, action.Response) {
 		return helpers.LogAndReturnFalse(ctx.Logger, action.ErrInvalidAmount, createProposal.Tags(), errors.New("Funding More than Funding goal"))
 	}
 
-	if !createProposal.FundingGoal.Equals(*options.FundingGoal) {
+	// the goal is an optional pointer in the payload: absent or null must not be dereferenced
+	if createProposal.FundingGoal == nil || !createProposal.FundingGoal.Equals(*options.FundingGoal) {
 		return helpers.LogAndReturnFalse(ctx.Logger, governance.ErrInvalidFundingGoal, createProposal.Tags(), errors.New("Funding goal"))
 	}
 
